@@ -266,34 +266,9 @@ func c07ASTImmutable(c *Ctx) {
 						c.R.Bad(shortFn(topFn(fn))+"/store-into-ast", c.ipos(st), "store into a gqlparser AST node reached from "+root+": parsed documents are cached and shared between requests, so this request changes what later requests execute")
 					}
 				}
-				// CollectedField.Selections discipline
-				if fa, ok := st.Addr.(*ssa.FieldAddr); ok && fieldNameOf(fa) == "Selections" && an.NamedIs(fa.X.Type(), pkgGraphql, "CollectedField") {
+				if ok2, key2, why := selectionsStore(c, fn, st); ok2 {
 					nSel++
-					bad := ""
-					for _, d := range an.Defs(st.Val) {
-						call, isCall := d.(*ssa.Call)
-						if an.IsNilConst(d) {
-							continue
-						}
-						if !isCall {
-							bad = "assigned " + d.Name() + " (not an append)"
-							continue
-						}
-						bi, isB := call.Call.Value.(*ssa.Builtin)
-						if !isB || bi.Name() != "append" {
-							bad = "assigned the result of " + an.CalleeOf(call).FullName()
-							continue
-						}
-						first := call.Call.Args[0]
-						if an.IsNilConst(first) {
-							continue
-						}
-						la, isField := loadAddr(first).(*ssa.FieldAddr)
-						if !isField || fieldNameOf(la) != "Selections" || !an.NamedIs(la.X.Type(), pkgGraphql, "CollectedField") {
-							bad = "append's destination is not CollectedField.Selections itself: appending to a slice taken from the AST overwrites the spare capacity of the cached document"
-						}
-					}
-					c.R.Check(bad == "", shortFn(topFn(fn))+"/store:CollectedField.Selections", c.ipos(st), "extended from itself", bad)
+					c.R.Check(why == "", key2, c.ipos(st), "extended from itself", why)
 				}
 			}
 		}
@@ -399,4 +374,39 @@ func c07CacheKey(c *Ctx) {
 		keyArg := call.Common().Args[1]
 		c.R.Check(q != nil && keyArg == q, "parseQuery→"+an.CalleeOf(call).Method.Name()+"/key", c.ipos(call), "keyed by the query-text parameter", "the query cache is keyed by something other than the exact query text")
 	}
+}
+
+// selectionsStore: st assigns CollectedField.Selections; returns a reason if the assignment can alias an AST-owned slice.
+// Shared by C07 (documents are cached and shared between requests) and C06 (collectFields runs concurrently for the
+// elements of a list, all of which collect from the same parsed selection set).
+func selectionsStore(c *Ctx, fn *ssa.Function, st *ssa.Store) (bool, string, string) {
+	fa, ok := st.Addr.(*ssa.FieldAddr)
+	if !ok || fieldNameOf(fa) != "Selections" || !an.NamedIs(fa.X.Type(), pkgGraphql, "CollectedField") {
+		return false, "", ""
+	}
+	bad := ""
+	for _, d := range an.Defs(st.Val) {
+		call, isCall := d.(*ssa.Call)
+		if an.IsNilConst(d) {
+			continue
+		}
+		if !isCall {
+			bad = "assigned a slice that is not the result of append (" + d.Name() + "): CollectedField.Selections aliases a slice of the parsed document"
+			continue
+		}
+		bi, isB := call.Call.Value.(*ssa.Builtin)
+		if !isB || bi.Name() != "append" {
+			bad = "assigned the result of " + an.CalleeOf(call).FullName()
+			continue
+		}
+		first := call.Call.Args[0]
+		if an.IsNilConst(first) {
+			continue
+		}
+		la, isField := loadAddr(first).(*ssa.FieldAddr)
+		if !isField || fieldNameOf(la) != "Selections" || !an.NamedIs(la.X.Type(), pkgGraphql, "CollectedField") {
+			bad = "append's destination is not CollectedField.Selections itself: appending to a slice taken from the AST overwrites the spare capacity of the shared document"
+		}
+	}
+	return true, shortFn(topFn(fn)) + "/store:CollectedField.Selections", bad
 }
